@@ -22,6 +22,9 @@ type DigestCase struct {
 	Deps    []string `json:"deps"`   // literal files and globs of the task
 	Styles  []string `json:"styles"` // "", nested, rel-dot, rel-parent, abs-elsewhere, rel-elsewhere
 	Edit    string   `json:"edit"`   // file changed and changed back
+	// SpokLink: <project>/spokfile is a symbolic link to ../shared/spokfile, and ../shared holds files
+	// of the same names and contents: the project's files are the ones the digest is about
+	SpokLink bool `json:"spok_link,omitempty"`
 }
 
 var digestDepPool = []string{"in.txt", "src/a.go", "src/*.go", "**/*.go", "*.txt", "data/sub/x.json", "data/**"}
@@ -33,6 +36,7 @@ func genDigest(t *rapid.T) DigestCase {
 	c.Deps = rapid.SliceOfNDistinct(rapid.SampledFrom(digestDepPool), 1, 3, rapid.ID[string]).Draw(t, "deps")
 	c.Styles = rapid.SliceOfNDistinct(rapid.SampledFrom(digestStyles), 2, 4, rapid.ID[string]).Draw(t, "styles")
 	c.Edit = rapid.SampledFrom(digestFiles).Draw(t, "edit")
+	c.SpokLink = rapid.IntRange(0, 3).Draw(t, "spok_link") == 0
 	return c
 }
 
@@ -69,6 +73,17 @@ func execDigest(s *ev.Shard, b *sandbox.Box, c DigestCase) *rp.Fail {
 	if err := writeProject(b, b.Home, map[string]string{"started-here/": ""}); err != nil {
 		return &rp.Fail{Sig: "harness", Msg: err.Error()}
 	}
+	if c.SpokLink {
+		shared := filepath.Join(b.Home, "shared")
+		if err := writeProject(b, shared, files); err != nil {
+			return &rp.Fail{Sig: "harness", Msg: err.Error()}
+		}
+		_ = os.Remove(filepath.Join(b.Proj, "spokfile"))
+		if err := os.Symlink(filepath.Join("..", "shared", "spokfile"), filepath.Join(b.Proj, "spokfile")); err != nil {
+			return &rp.Fail{Sig: "harness", Msg: err.Error()}
+		}
+		_ = b.Own()
+	}
 	size := len(c.Deps) + len(c.Styles)
 	digestUnder := func(style string) (string, *rp.Fail) {
 		_ = os.RemoveAll(filepath.Join(b.Proj, ".spok"))
@@ -83,6 +98,11 @@ func execDigest(s *ev.Shard, b *sandbox.Box, c DigestCase) *rp.Fail {
 			return "", &rp.Fail{Sig: "valid-run-failed", Size: size, Msg: fmt.Sprintf("spokfile:\n%sstarted %q: `spok build` failed: %s", src, style, sandbox.Strip(r.Stderr))}
 		}
 		data, err := os.ReadFile(filepath.Join(b.Proj, ".spok", "cache.json"))
+		if err != nil && c.SpokLink {
+			// "next to the spokfile" has two readings when the spokfile is a link; either is accepted here
+			data, err = os.ReadFile(filepath.Join(b.Home, "shared", ".spok", "cache.json"))
+			_ = os.RemoveAll(filepath.Join(b.Home, "shared", ".spok"))
+		}
 		if err != nil {
 			return "", &rp.Fail{Sig: "no-cache-next-to-spokfile", Size: size, Msg: fmt.Sprintf("spokfile:\n%sstarted %q: no cache at <project>/.spok/cache.json after a successful run: %v", src, style, err)}
 		}
